@@ -50,6 +50,15 @@ Definition bview_wt (nil : bool) (r : bres (Z * err) (bstate * list bytes)) : pc
   | BPanic m (st, _) => (abs_pc nil st, Panicked (panic_of m))
   end.
 
+(* growSlice(b, n) as the model has it: the capacity asked for, the rounding [rup] and the limit [maxalloc] *)
+Definition grow_slice_oracle (rup : Z -> Z) (maxalloc : Z) (b : gslice) (n : Z) : bres gslice unit :=
+  let c2 := grow_slice_cap (sl_len b) (sl_cap b) n in
+  if c2 >? maxalloc then BPanic p_toolarge tt
+  else BOk (fst b, repeat x00 (Z.to_nat (rup c2 - sl_len b))) tt.
+(* the generated code does not track whether s.buf is nil: states are compared up to that flag *)
+Definition forget_nil (x : pc * result) : pc * result :=
+  (mkpc (data (fst x)) (off (fst x)) (cap (fst x)) false (last_read (fst x)), snd x).
+
 (* the state is well formed: 0 <= off <= len (len <= cap holds by construction) *)
 Definition st_ok (st : bstate) : bool := let '(b, o, _) := st in (0 <=? o) && (o <=? sl_len b).
 
